@@ -166,6 +166,9 @@ func (o *c01Oracle) after(ch *chain, ci *callInfo) *Violation {
 }
 
 func genC01(t *rapid.T, tier string) interface{} {
+	if rapid.IntRange(0, 7).Draw(t, "shape") == 0 {
+		return &hProg{IterLag: genIterLag(t, tier)}
+	}
 	pr := &histProfile{MaxBlocks: 20, MinBlocksOf: []int{2, 6, 12}, MaxTxs: 5, Evidence: 4, Missed: 2, Restart: 4, Queries: true, ExtraSign: true,
 		TxKinds: defaultTxKinds, Modes: []string{"", "", "check", "simulate"}, WrongSigner: 12}
 	if tier == "thorough" {
@@ -176,6 +179,9 @@ func genC01(t *rapid.T, tier string) interface{} {
 
 func execC01(prog interface{}, c *Case) *Violation {
 	p := prog.(*hProg)
+	if p.IterLag != nil {
+		return execIterLag(p.IterLag, c)
+	}
 	ch, v := newChain(p, c)
 	if v != nil || ch == nil {
 		return v
@@ -215,7 +221,10 @@ func init() {
 			"from its database at the generated points, B never restarts, uses another pruning configuration and additionally receives CheckTx / Simulate / Query traffic; after every request the " +
 			"consensus-relevant responses (InitChain validators, BeginBlock/EndBlock/DeliverTx events, codes, data, validator updates in order, Commit hash, Info) must be identical; a panic must be the " +
 			"same panic in both. Go randomises map iteration per loop, so two in-process instances are independent samples of every map-ordered code path. Non-trivial = >=1 accepted transaction, " +
-			">=1 validator-set change and >=1 restart; distinctness = hash of the program",
+			">=1 validator-set change and >=1 restart. One case in eight is instead an iterator-schedule program on a pruning rootmulti/IAVL store (commits, optional reopen, a partially consumed " +
+			"ascending/descending range iteration, Close, further pruning commits): the harness delays the traversal goroutine's database reads until Close() has returned and requires that no node read after that point " +
+			"is deleted by the following commits (the schedule under which iavl panics in the goroutine and the replica dies); non-trivial there = a read was held at the gate, the iteration was not exhausted and a later commit pruned; " +
+			"distinctness = hash of the program",
 		Gen: genC01, New: func() interface{} { return &hProg{} }, Exec: execC01, RecordCur: func(interface{}) bool { return true },
 		Assum: []string{"log strings and gas fields are not compared", "map-order and goroutine-timing nondeterminism is sampled (each case is an independent trial), not enumerated"}})
 }
